@@ -20,6 +20,12 @@ def check(run):
     exclprov(run, p)
     cleanset(run, p)
     deadattr(run, p)
+    from .common import gotcha_rule
+    n = gotcha_rule(run, 'C12-WHOLESTR', p, ['tdda.referencetest.gentest', 'tdda.referencetest.utils', 'tdda.referencetest.diffrex'],
+                    'names and machine-specific strings are handled whole: no constant written ("text") - a one-element tuple without '
+                    'its comma - is used with `in` (that is a substring test: an output called "cache" would be ignored as part of '
+                    '"__pycache__"), and no exclusion list is extended by a single string (+= / extend add its characters)')
+    run.floor('C12-WHOLESTR', n, 3)
 
 
 DEAD_BY_DESIGN = {
